@@ -95,10 +95,13 @@ class Ctx:
             er = random.Random(zlib.crc32(cmds.encode()) ^ (self.seed & 0xffffffff))
             regimes = ["0", "0", "keep", "keep", "34", "22", "12", "2", "4", "11", "9999"]
             out_lines = ["errno " + er.choice(regimes)]
+            since = 0
             for x in lines:
                 out_lines.append(x)
-                if x == "reset":
+                since += 1
+                if x == "reset" or since >= 25:        # a new regime per sub-trace and every 25 commands
                     out_lines.append("errno " + er.choice(regimes))
+                    since = 0
             lines = out_lines
         events = []
         rounds = 0
@@ -244,9 +247,13 @@ def annotate(events):
         ev.setdefault("pc", [])
         key = (ev["ph"], ev["pnull"], tuple(ev["s"]), ev["snull"])
         succ = ev["ret"] == "out" and ev["outk"] == "str" and ev["out"] and ev["out"][0] != 42
-        ev["kprev"] = seen.get(key, 0)
-        if (succ or ev.get("rel")) and key not in seen:
-            seen[key] = i
+        # kprev: the first identical request to the SAME library (the result function is learned per library);
+        # rprev: the identical request to the reference library (rel = 1), for C02_Released
+        kk = key + (ev.get("rel", 0),)
+        ev["kprev"] = seen.get(kk, 0)
+        ev["rprev"] = seen.get(key + (1,), 0) if not ev.get("rel") else 0
+        if (succ or ev.get("rel")) and kk not in seen:
+            seen[kk] = i
         if succ:
             o = (tuple(ev["out"]))
             if o in byout and byout[o][1] != key:
